@@ -397,7 +397,7 @@ def _pipeline(ctx, pb, zn, zd, owners, style, case, nblocks, other):
         sitename, tags = opname, None
         if opname == "fftfunc":
             sitename = f"fftfunc.{desc['name']}"
-            ax = desc["axes"][-1] if "axes" in desc else desc["axis"]
+            ax = -1 if "s" in desc else (desc["axes"][-1] if "axes" in desc else desc["axis"])
             tags = {"fft": desc["name"], "last_transformed_axis_len": int(cur_n.shape[ax])}
         compare_meta(ctx, sitename, rn, rd, f"stage {s} at build time", tags)
         # container expectations
